@@ -11,7 +11,7 @@ import GoldModel.Drive.ExSpec
     params := - | E t t | L t param (, t param)* . t
     param  := M t t t t | N t t t
     stmts  := [ stmt* ]
-    stmt   := SA t t ex | SE ex | SR t ex | SC t | SV t t t t | SI t ex stmts tail
+    stmt   := SA ex t ex | SE ex | SR t ex | SC t | SV t t t t | SI t ex stmts tail
             | SW t ex stmts t | SL t stmts t | SF t t t ex t ex step stmts t | SX t ex stmts t | SU t stmts t ex
     tail   := TE t | TL t stmts t | TF t ex stmts tail
     step   := - | + t ex
@@ -65,7 +65,7 @@ def step : P (Option (Tok × Ex))
 mutual
 partial def stmt : P (Stmt Ex)
   | "SA" :: ws => do
-    let (l, ws) ← tok ws; let (o, ws) ← tok ws; let (e, ws) ← ex ws
+    let (l, ws) ← ex ws; let (o, ws) ← tok ws; let (e, ws) ← ex ws
     pure (.assign l o e, ws)
   | "SE" :: ws => do
     let (e, ws) ← ex ws
